@@ -48,6 +48,7 @@ type Shared struct {
 	pending     []*FinalQuery
 	notes       map[string]bool
 	stubs       map[string]bool
+	stubMono    map[string][2]int
 	boundsUsed  map[string]int
 	optionsUsed map[string]bool
 
@@ -88,6 +89,7 @@ type Exec struct {
 	initMode      bool
 	finishFn      func(outcome)
 	pendingForks  []*State
+	mergeBase     []string
 	nameSink      *[]string // during a state merge: definitions of names given to large merged terms
 }
 
@@ -1620,6 +1622,17 @@ func (e *Exec) binop(s *State, x *ssa.BinOp, a, b Val) Val {
 					return mkEq(ib.NilIf)
 				}
 				panic("comparison of a merged (maybe-nil) interface with a non-nil value")
+			}
+			// a havocked slice is nil exactly when its (symbolic) length is 0 (proto round trip turns empty into nil)
+			if sa, ok := a.(SliceV); ok && sa.SymLen != "" {
+				if nb, isN := isNilish(b); isN && nb {
+					return mkEq(tEq(sa.SymLen, "0"))
+				}
+			}
+			if sb, ok := b.(SliceV); ok && sb.SymLen != "" {
+				if na, isN := isNilish(a); isN && na {
+					return mkEq(tEq(sb.SymLen, "0"))
+				}
 			}
 			if g, ok := a.(GetResult); ok {
 				if nb, isN := isNilish(b); isN && nb {
